@@ -184,6 +184,9 @@ class GlomError(Exception):
         if set(self._tb_lines[0]) <= {' ', '^', '~'}:
             self._tb_lines = self._tb_lines[1:]
         self._scope = scope
+        # an error that was already rendered (e.g. by an inner glom() call whose
+        # error was logged on its way up) gets the message of this call
+        self._finalized_str = None
 
     def __str__(self):
         if getattr(self, '_finalized_str', None):
